@@ -622,6 +622,14 @@ func (exec *Executor) executeDecimalMethod(
 		rounded = math.Round(scaled) / ratio
 	}
 
+	// Rounding up at a negative scale can leave the float64 range.
+	if math.IsInf(rounded, 0) {
+		return 0, fmt.Errorf(
+			`%w: argument "%v" of jsonpath item method %v is invalid for type %v`,
+			ErrVerbose, value, op, "numeric",
+		)
+	}
+
 	// Count the digits before the decimal point.
 	numStr := strconv.FormatFloat(rounded, 'f', -1, 64)
 	count := 0
